@@ -8,6 +8,7 @@
 Exit 0: property held on everything explored (KNOWN-FINDING lines possible);
 exit 1: new violation, `VIOLATION property=<id> replay=<path>` printed;
 exit 2: harness error / watchdog / non-reproducing replay (never a verdict).
+--replay: 1 reproduced, 3 reproduced with a different event log, 4 same clause violated with another signature, 0 not reproduced.
 """
 import os
 import sys
@@ -43,6 +44,9 @@ def main(argv):
         if ok is None:
             print("HARNESS-ERROR\n" + info["harness_error"])
             return 2
+        if not ok and info.get("clause_hit"):
+            print("replay: the same clause is violated, with another signature: %s" % info["clause_hit"]["sig"])
+            return 4
         if ok and not info["digest_match"]:
             print("replay: same violation but a DIFFERENT event log than recorded (digest mismatch) - not an exact reproduction")
             return 3
